@@ -264,11 +264,11 @@ def multi_file_stage(ck, rng, oracles, thorough, stats, nviol):
     return nviol
 
 
-def all_arms_stage(ck, rng, oracles, thorough, stats, nviol):
-    """'All arms terminate' compositions (pygen.all_arms_bodies): pyscn's dead ranges against the markers CPython executes."""
+def all_arms_stage(ck, aa, oracles, stats, nviol):
+    """'All arms terminate' compositions (aa = pygen.all_arms_bodies(...)): pyscn's dead ranges against the markers CPython executes."""
     import time as _time
     t0 = _time.time()
-    core, rest, total = pygen.all_arms_bodies(rng, 20000 if thorough else 1500)
+    core, rest, total = aa
     labelled = core + rest
     per = 40
     mods = []
@@ -347,6 +347,11 @@ def main(tier):
     mods += pygen.modules_from_bodies(fb2 + (fb3[len(fb2):] if thorough else fb3 + pygen.routing_frame_bodies()))
     # multi-arm statements, every terminate/fall-through pattern of the arms (if with up to 4 elif, try with up to 3 handlers, match)
     mods += pygen.modules_from_bodies(pygen.arm_chain_bodies())
+    # 'all arms terminate' compositions (a multi-arm statement whose arms independently return / raise / break / continue / fall
+    # through, inside frames with a finally, depth 2 and 3): all of them go through the CPython-witness stage below (all_arms_stage),
+    # a sample of them also through the model ties with the modules above
+    aa = pygen.all_arms_bodies(rng, 20000 if thorough else 1500)
+    mods += pygen.modules_from_bodies([b for _l, b in rng.sample(aa[0] + aa[1], 600 if thorough else 120)])
     d = lib.fresh_dir("c01")
     cc.write_modules(mods, d)
     oracles = cc.gen_oracles(rng, n_orc)
@@ -417,7 +422,7 @@ def main(tier):
         ck.broken_ties.append("multi-file stage failed: " + str(e)[-600:])
     # ---- 'all arms terminate' compositions: the cleanup clauses of the outer frames are reachable only through the jumps ----
     try:
-        nviol = all_arms_stage(ck, rng, oracles, thorough, stats, nviol)
+        nviol = all_arms_stage(ck, aa, oracles, stats, nviol)
     except Exception as e:
         ck.broken_ties.append("all-arms stage failed: " + str(e)[-600:])
     sem_mism = tie_mism = 0
@@ -548,7 +553,14 @@ def main(tier):
                 "files in the root and in a sub-package) analysed in ONE invocation each of `analyze --select complexity,deadcode .`, "
                 "`analyze --select deadcode <files sorted>`, `<files reversed>`, `check --select deadcode .` and `check <files reversed>`; per "
                 "reported file X: no line CPython executes in X lies in any range reported under X (whatever function the row names), every row "
-                "names a def of X and stays inside its lines, no row is reported under a path outside the project",
+                "names a def of X and stays inside its lines, no row is reported under a path outside the project; "
+                "plus the all-arms-terminate stream (input_distribution.all_arms): an inner multi-arm statement (if/else, if/elif/else, try with 1-2 "
+                "handlers and with else, match, with) whose arms independently end in return/raise/break/continue/fall-through, directly or through "
+                "if/if-else/with/while/for-else inside the body/handler/else/finally of an outer try..finally (or a with) whose other arms fall through "
+                "or terminate, depth 2 and depth 3 (try..finally around try/except or try/finally around the inner statement), plain and inside a loop; "
+                "'core' (no loop, depth 2: every arm assignment over return/raise/fall-through x every outer frame; depth 3: uniform arms x every frame "
+                "pair) is enumerated completely, 'sampled_of_the_rest' of 'rest_total' are drawn; every function runs under every oracle and no executed "
+                "marker (those in the finally clauses are counted) may lie in a reported range; a sample of these bodies is also in the model-tied modules",
         "input_distribution": stats,
         "disagreements_checked": nviol + tie_mism + sem_mism + stats.get("multi_file", {}).get("disagreements", 0),
         "oracles": len(oracles), "modules": len(mods),
